@@ -5,3 +5,4 @@ from . import mpu_c  # noqa: F401
 from . import tiles_c  # noqa: F401
 from . import geobox_c  # noqa: F401
 from . import gridspec_c  # noqa: F401
+from . import s3_c  # noqa: F401
